@@ -2,6 +2,7 @@
 direct, RNG-order-independent oracle ("for each row find ONE partner that explains every entry and the
 target").  Nothing here knows about the Lean model."""
 import contextlib
+import itertools
 import math
 
 from harness import core
@@ -58,6 +59,7 @@ def capture_draws(rec):
         finally:
             depth['beta'] -= 1
         rec.setdefault('beta', []).append(r.detach().clone())
+        rec.setdefault('conc', []).append(float(self.concentration1.reshape(-1)[0]))
         return r
 
     torch.rand, torch.randperm, Beta.sample = rand, randperm, sample
@@ -79,7 +81,8 @@ def draws_json(rec, B):
     u = rec['rand'][0] if rec.get('rand') else None
     u = u.reshape(u.shape[0], -1).tolist() if u is not None and u.dim() >= 1 and u.numel() > 0 else []
     return {'rates': [fbits(r) for r in rates], 'perm': [int(p) for p in perm],
-            'u': [[fbits(v) for v in row] for row in u], 'calls': {k: len(v) for k, v in rec.items()}}
+            'u': [[fbits(v) for v in row] for row in u], 'calls': {k: len(v) for k, v in rec.items()},
+            'conc': rec['conc'][0] if rec.get('conc') else None}
 
 
 def torch_dtype(name):
@@ -92,8 +95,41 @@ def target_tensor(y):
     if y is None:
         return None
     if y['t'] == 'index':
-        return torch.tensor(y['v'], dtype=torch.long)
+        return torch.tensor(y['v'], dtype=getattr(torch, y.get('idt', 'int64')))
     return torch.tensor(y['v'], dtype=torch_dtype(y.get('dtype', 'f32')))
+
+
+def make_view(x, kind):
+    """the same values as a non-contiguous / aliased view (legal inputs of the call)"""
+    import torch
+    if not kind or x.numel() == 0:
+        return x
+    B, F, D = x.shape
+    if kind == 'strided':
+        big = torch.zeros(B, F, 2 * D, dtype=x.dtype)
+        big[:, :, ::2] = x
+        big[:, :, 1::2] = 12345.0
+        return big[:, :, ::2]
+    if kind == 'transposed':
+        return x.permute(2, 0, 1).contiguous().permute(1, 2, 0)
+    if kind == 'slice-of-bigger':
+        big = torch.full((B + 2, F, D), -777.0, dtype=x.dtype)
+        big[1:B + 1] = x
+        return big[1:B + 1]
+    if kind == 'expanded-batch':      # all rows are views of one row (stride 0 along the batch)
+        return x[:1].expand(B, F, D)
+    return x
+
+
+def same_bits(a, b):
+    """tensors equal including the sign of zero and NaN positions"""
+    import torch
+    if a.shape != b.shape or a.dtype != b.dtype:
+        return False
+    if a.dtype.is_floating_point:
+        return bool(torch.equal(torch.nan_to_num(a, nan=12321.0), torch.nan_to_num(b, nan=12321.0))
+                    and torch.equal(torch.signbit(a), torch.signbit(b)))
+    return bool(torch.equal(a, b))
 
 
 def canon_y(y):
@@ -126,8 +162,9 @@ def plain_target(case, i):
     return [1.0 if y['v'][i] == c else 0.0 for c in range(C)]
 
 
-def explain_rows(case, x, xo, yo, tol):
-    """x, xo: nested [B][F][D] floats (input / mixed); yo: per-row lists.  Returns None or (row, reason)."""
+def explain_rows(case, x, xo, yo, tol, hint=None):
+    """x, xo: nested [B][F][D] floats (input / mixed); yo: per-row lists.  Returns None or (row, reason).
+    hint: a list of candidate partners (tried first per row; every other row is still tried afterwards)"""
     B, F, D, C, mode = case['B'], case['F'], case['D'], case['C'], case['mode']
     mi = case['mi']
     S = sum(mi) if (mode == 'feature' and mi) else None
@@ -135,7 +172,8 @@ def explain_rows(case, x, xo, yo, tol):
         own_t = plain_target(case, i)
         why = []
         found = False
-        for p in range(B):
+        first = [hint[i]] if hint and i < len(hint) and 0 <= hint[i] < B else []
+        for p in itertools.chain(first, (q for q in range(B) if q not in first)):
             # ---- features
             ok = True
             lo = hi = 0.0
@@ -167,26 +205,30 @@ def explain_rows(case, x, xo, yo, tol):
             par_t = plain_target(case, p)
             diffs = [(a, b) for a, b in zip(own_t, par_t) if a != b]
             lam = None
+            scale = 1.0 + max(abs(v) for v in own_t + par_t)
+            slack = tol
             if diffs:
                 c = next(c for c in range(len(own_t)) if own_t[c] != par_t[c])
                 lam = (yo[i][c] - par_t[c]) / (own_t[c] - par_t[c])
-            scale = 1.0 + max(abs(v) for v in own_t + par_t)
+                # lambda is read back from the target: an error of tol*scale in the target (the bound used for the
+                # convex combination below) is an error of tol*scale/|own - partner| in lambda
+                slack = max(tol, tol * scale / abs(own_t[c] - par_t[c]))
             if lam is None:
                 if any(abs(yo[i][c] - own_t[c]) > tol * scale for c in range(len(own_t))):
                     why.append(f'p={p}: target differs from the (equal) targets of both rows')
                     continue
             else:
-                if lam < -tol or lam > 1 + tol:
+                if lam < -slack or lam > 1 + slack:
                     why.append(f'p={p}: lambda {lam} outside [0,1]')
                     continue
                 if any(abs(yo[i][c] - (lam * own_t[c] + (1 - lam) * par_t[c])) > tol * scale
                        for c in range(len(own_t))):
                     why.append(f'p={p}: target is not lambda*own + (1-lambda)*partner')
                     continue
-                if mode == 'off' and abs(lam - 1) > tol:
+                if mode == 'off' and abs(lam - 1) > slack:
                     why.append(f'p={p}: mixup off but lambda {lam} != 1')
                     continue
-                if mode == 'feature' and not (lo / S - tol * 4 <= lam <= hi / S + tol * 4):
+                if mode == 'feature' and not (lo / S - tol * 3 - slack <= lam <= hi / S + tol * 3 + slack):
                     why.append(f'p={p}: lambda {lam} is not the kept mutual-information share '
                                f'[{lo / S}, {hi / S}]')
                     continue
